@@ -48,18 +48,6 @@ theorem checkSendingTime_none_iff (s : Sess) (m : InMsg) : checkSendingTime s m 
       · intro h; rw [if_neg]; simp; omega
   · simp
 
-theorem validate_none_iff (m : InMsg) : validate m = none ↔ NoEmpty m := by
-  unfold validate NoEmpty
-  cases h : m.f.find? (fun p => p.2.isEmpty) with
-  | none => simp [List.find?_eq_none] at h ⊢; exact h
-  | some p =>
-    simp only [reduceCtorEq, false_iff]
-    intro hc
-    have h1 := List.find?_some h
-    have h2 := hc p (List.mem_of_find?_eq_some h)
-    simp [h2] at h1
-
-
 /-! ## outcomes of verifySelect -/
 
 /-- the sequence checks that were asked for passed -/
@@ -74,19 +62,18 @@ theorem timeGate_iff (s : Sess) (m : InMsg) :
   · simp
 
 theorem verifyAppImpl_cases (s : Sess) (m : InMsg) :
-    (NoEmpty m ∧ verifyAppImpl s m = (s.emit (cbObs s m), callbackVerdict m)) ∨
-    (¬ NoEmpty m ∧ ∃ r, verifyAppImpl s m = (s, some r)) := by
-  unfold verifyAppImpl
-  cases h : validate m with
+    (Valid s.cfg m ∧ verifyAppImpl s m = (s.emit (cbObs s m), callbackVerdict m)) ∨
+    (¬ Valid s.cfg m ∧ ∃ r, verifyAppImpl s m = (s, some r)) := by
+  unfold verifyAppImpl Valid
+  cases h : validate s.cfg m with
   | none =>
     left
-    refine ⟨(validate_none_iff m).1 h, ?_⟩
+    refine ⟨rfl, ?_⟩
     simp only [cbObs]
     split <;> rfl
   | some r =>
     right
-    refine ⟨fun hc => ?_, r, rfl⟩
-    rw [(validate_none_iff m).2 hc] at h; cases h
+    exact ⟨fun hc => (by cases hc), r, rfl⟩
 
 /-- every outcome of the verification pipeline: either the state is untouched (a check failed, or the callbacks
     were not asked for), or every check passed and exactly the callback observation of `m` was emitted -/
@@ -129,7 +116,7 @@ theorem verifySelect_noApp (s : Sess) (m : InMsg) (th tl : Bool) : (verifySelect
 
 /-- a verification that reports no reject passed every check that was asked for -/
 theorem verifySelect_pass (s : Sess) (m : InMsg) (th tl ai : Bool) (h : (verifySelect s m th tl ai).2 = none) :
-    BeginOK s.cfg m ∧ CompOK s.cfg m ∧ TimeGate s m ∧ SeqGate s m th tl ∧ (ai = true → NoEmpty m ∧ callbackVerdict m = none) := by
+    BeginOK s.cfg m ∧ CompOK s.cfg m ∧ TimeGate s m ∧ SeqGate s m th tl ∧ (ai = true → Valid s.cfg m ∧ callbackVerdict m = none) := by
   unfold verifySelect at h
   split at h
   · cases h
@@ -186,7 +173,7 @@ theorem verifySelect_complete (s : Sess) (m : InMsg) (th tl ai : Bool) (hb : Beg
     · simp only [if_true]; exact (checkTooHigh_none_iff s m).2 (hs.2 rfl)
   rw [h1, h2]
 
-theorem verifyAppImpl_pass (s : Sess) (m : InMsg) (h : NoEmpty m) : verifyAppImpl s m = (s.emit (cbObs s m), callbackVerdict m) := by
+theorem verifyAppImpl_pass (s : Sess) (m : InMsg) (h : Valid s.cfg m) : verifyAppImpl s m = (s.emit (cbObs s m), callbackVerdict m) := by
   rcases verifyAppImpl_cases s m with ⟨_, he⟩ | ⟨hn, _⟩
   · exact he
   · exact absurd h hn
